@@ -234,6 +234,16 @@ def run(ctx):
               "HistogramND.__getitem__:too-many", "more indices than axes -> IndexError", "too many indices are no longer refused", ng.where)
     ctx.check(refused(sel, lambda t: "step is not None" in t and "step < 0" in t, "IndexError"), "C11.c", "HistogramND.select:reversed",
               "reversed slice -> IndexError", "reversed slices are no longer refused", sel.where)
+    ixn_ = [p for p in ng.params() if p != "self"][0]
+    rebinds = [U(n)[:60] for n in ast.walk(ng.node) if isinstance(n, (ast.Assign, ast.AugAssign))
+               and any(isinstance(t_, ast.Name) and t_.id == ixn_ for t_ in (n.targets if isinstance(n, ast.Assign) else [n.target]))]
+    ctx.check(not rebinds, "C11.c", "HistogramND.__getitem__:index-not-rewritten", "the refusals test the index exactly as the caller passed it",
+              f"the index is re-bound ({rebinds[:1]}) before it is validated: an over-long or out-of-range index can be normalised into a valid one", ng.where)
+    selp = [p for p in sel.params() if p != "self"]
+    reb2 = [U(n)[:60] for n in ast.walk(sel.node) if isinstance(n, ast.AugAssign) and isinstance(n.target, ast.Name) and n.target.id == selp[1]] + \
+           [U(n)[:60] for n in ast.walk(sel.node) if isinstance(n, ast.Assign) and any(isinstance(t_, ast.Name) and t_.id == selp[1] for t_ in n.targets)]
+    ctx.check(not reb2, "C11.c", "HistogramND.select:index-not-rewritten", "an integer index reaches numpy as given (numpy refuses what is out of range)",
+              f"select() rewrites its index ({reb2[:1]}): out-of-range negative indices wrap around instead of being refused", sel.where)
     last_raise = [U(s) for s in sel.node.body if isinstance(s, ast.Raise)]
     ctx.check(any("TypeError" in r for r in last_raise), "C11.c", "HistogramND.select:type", "neither int nor slice -> TypeError",
               "other index types are no longer refused with TypeError", sel.where)
